@@ -11,6 +11,7 @@
     fault `capGrow` (no theorem about a kernel may need that case); `reslice x bk a b` is `x = x[a:b]`
     (`0 ≤ a ≤ b ≤ cap x`, otherwise Go's slice-bounds panic).
   * `mk3u n c`: `make([]T, n, c)` of a slice whose capacity is NOT observed: the two makeslice checks, `n` zeros.
+  * `mkLL`, `setIdxLL` (with `idxL`): two-level local lists.
   Core Lean only.
 -/
 import Gzx.GoM
@@ -47,5 +48,16 @@ def reslice (x bk : List Int) (a b : Int) : Res (List Int × List Int) :=
   if 0 ≤ a ∧ a ≤ b ∧ b ≤ ((x.length + bk.length : Nat) : Int) then
     .ok (((x ++ bk).take b.toNat).drop a.toNat, (x ++ bk).drop b.toNat)
   else .error (.panic "slice bounds out of range")
+
+/-! two-level local lists (`[][]byte`; the byte-slice field of a flattened local slice of structs) -/
+
+/-- `make([][]T, n)`: `n` nil slices -/
+def mkLL (n : Int) : Res (List (List Int)) :=
+  if n < 0 then .error (.panic "makeslice: len out of range") else .ok (List.replicate n.toNat [])
+
+/-- `t[i] = r` -/
+def setIdxLL (t : List (List Int)) (i : Int) (r : List Int) : Res (List (List Int)) :=
+  if i < 0 then .error oob else
+  if i.toNat < t.length then .ok (t.set i.toNat r) else .error oob
 
 end Gzx.GoM
